@@ -25,7 +25,14 @@ double tfd(struct FD a, struct FF b, struct DD c, struct ID d, struct LL e, stru
 double many(int a, double b, struct FF c, long d, float e, struct S16 f, int g, int h, int i, int j, struct LL k, double l, double m, double n, double o, double p, double q, double r, struct DD s, int t) {
 	return a + b * 2 + c.a * 3 + c.b * 4 + d * 5 + e * 6 + f.a * 7 + f.b * 8 + g * 9 + h * 10 + i * 11 + j * 12 + k.a * 13 + k.b * 14 + l * 15 + m * 16 + n * 17 + o * 18 + p * 19 + q * 20 + r * 21 + s.a * 22 + s.b * 23 + t * 24; }
 union UU { int i; double d; char c[11]; }; union UU ru(int i) { union UU u; memset(&u, 0, sizeof u); u.i = i; return u; } int tu(union UU u) { return u.i + u.c[0]; }
+/* aggregates with every alignment: copies move all bytes whatever granule the alignment suggests */
+struct A2 { short a; char b[5]; short c; }; struct A16 { _Alignas(16) long a; long b; int c[6]; }; struct A32 { char x; _Alignas(32) char y[40]; }; struct A64 { _Alignas(64) int v[3]; double d; };
+struct A16h { char c; struct A16 in; short t; }; union UA16 { _Alignas(16) char c[20]; long l; };
+#define INITCOPY(T) { struct T a, d[2]; int i; memset(&a, 0, sizeof a); memset(d, 0xee, sizeof d); for (i = 0; i < (int)sizeof a; ++i) ((char *)&a)[i] = 0x80 + i; { struct T b = a; struct T e[2] = { a, b }; struct { char p; struct T m; } w = { 1, a }; d[1] = e[1]; \
+	P(memcmp(&a, &b, sizeof a)); P(memcmp(&a, &d[1], sizeof a)); P(memcmp(&a, &w.m, sizeof a)); dump(&e[0], sizeof a); } }
 int main(void) {
+	COPYTEST(A2) COPYTEST(A16) COPYTEST(A32) COPYTEST(A64) COPYTEST(A16h) INITCOPY(A2) INITCOPY(A16) INITCOPY(A32) INITCOPY(A64) INITCOPY(S3) INITCOPY(S17) INITCOPY(Mix)
+	{ union UA16 a, b; memset(&a, 7, sizeof a); memset(&b, 9, sizeof b); b = a; P(memcmp(&a, &b, sizeof a)); P(sizeof a); }
 	COPYTEST(S1) COPYTEST(S2) COPYTEST(S3) COPYTEST(S5) COPYTEST(S6) COPYTEST(S7) COPYTEST(S9) COPYTEST(S12) COPYTEST(S16) COPYTEST(S17) COPYTEST(S24) COPYTEST(S33) COPYTEST(Mix) COPYTEST(Nest)
 	P(t3(r3(1))); P(t9(5, r9(2))); P(t33(r33(1), 7, r33(3))); { struct S33 x = r33(9); dump(&x, sizeof x); }
 	{ struct FD a = rfd(1.5f); struct FF b = rff(2.5f); struct DD c = rdd(3.5); struct ID d = rid(9); struct LL e = { 11, 12 }; struct L3 f = rl3(100); PD(tfd(a, b, c, d, e, f)); PD(a.d); PD(b.b); PD(c.b); PD(d.d); P(f.c); }
